@@ -17,12 +17,20 @@ tpl = '/tmp/seed/brief_template.md' if os.path.exists('/tmp/seed/brief_template.
 t = open(tpl).read().replace('__PROPERTY__', text).replace('__WT__', wt).replace('__ID__', tag)
 if rnd:
     taken = []
-    for v in ('A', 'B'):
+    for v in ('A', 'B', 'C', 'D'):
         mp = '/verif/seeded/%s-%s/meta.json' % (pid, v)
         if os.path.exists(mp):
             m = json.load(open(mp))
             taken.append('- %s (files: %s)' % (m.get('summary', '')[:300], ', '.join(m.get('files', []))))
-    t += '\n\n## Already taken\n\nTwo seeded defects for this property exist already; yours must use DIFFERENT ideas and preferably different functions/files:\n' + '\n'.join(taken)
-    t += '\n\nIn this round prefer defects of the kinds: two cooperating sites that each look fine alone; a multi-step sequence of operations; a type/width/exponent combination that is rarely used; an off-by-one at a chunk/limb/digit boundary.\n'
+    t += '\n\n## Already taken\n\nSeveral seeded defects for this property exist already; yours must use DIFFERENT ideas and preferably different functions/files:\n' + '\n'.join(taken)
+    if rnd == 'r3':
+        t += ('\n\nIn this round look for parts of the behaviour the property covers that are reached through LESS COMMON ENTRY POINTS or forms: free functions and '
+              'function objects next to operators, compound assignment and increment/decrement, operands in the other order (built-in on the left), conversions between '
+              'different wrapper families or nestings, constexpr versus run-time evaluation, the second compiler (clang++ 14 is installed; some code is selected by '
+              '#if on the compiler), unsigned or 128-bit or 8/16-bit reps, non-default template arguments (radix 10, a different Narrowest, a different limb type), and '
+              'values that are special for one code path only (0, 1, -1, most negative, exact powers of two, all-ones). A defect that only shows for ONE such form while every '
+              'common form stays correct is ideal.\n')
+    else:
+        t += '\n\nIn this round prefer defects of the kinds: two cooperating sites that each look fine alone; a multi-step sequence of operations; a type/width/exponent combination that is rarely used; an off-by-one at a chunk/limb/digit boundary.\n'
 open('/tmp/seed/brief-%s.md' % tag, 'w').write(t)
 print(t)
